@@ -488,6 +488,17 @@ class CatModel:
         return out
 
     def on_store_field(self, loc, v, s, it, n, e=None):
+        # a variable cursor (self->var, unsolicited_fsm.var) is set to an element of a command's variable
+        # table: the element must exist (index < var_num) - the cursor is what the formatters and decoders
+        # dereference, under the canonical name VAR / UVAR, from then on
+        if isinstance(v, tuple) and v and v[0] in ('oarr', 'oelem'):
+            qt = self.loc_type(loc) or ''
+            if 'struct cat_variable' in qt and '*' in qt:
+                arr, idx = (v[1], Lin.c(0)) if v[0] == 'oarr' else (v[1], v[2])
+                cap = self.array_capacity(arr, s, it)
+                if cap is not None and is_lin(idx):
+                    ok = s.facts.lower(idx, 2, 0) >= 0 and s.facts.le(idx.sub(cap), -1) is True
+                    s.ev('ob', n, ob='index', ok=ok, array=arr, index=idx, cap=cap)
         if e is not None and loc[-1] == 'write_size':
             # what is known about the variable being decoded when its reported size is set
             var = s.mem.get(('S', 'var'))
